@@ -60,6 +60,22 @@ CLI_CLAIMED = {
  "C19": ("The accesses to the exit status are extracted per thread role from a free run of the CURRENT binary; TLC enumerates every interleaving of them with every arrival order of results (ExitCode.tla, invariant StatusTruthful, "
          "liveness Terminates) and each interleaving is forced on the real binary through the hook scheduler; plus a free-running --num-threads 1..16 sweep and the C13/C14 scenario space under several thread counts.",
          "TLC model ExitCode (all interleavings) replayed as forced schedules + trace validation", "5 C19"),
+ "C15": ("Exhaustive within the deviation budget: every placement of <= 2 (thorough: 3) configuration files (stylua.toml / .stylua.toml / both, .editorconfig with/without root) on a spine of 5 directories around the working directory "
+         "and in the four XDG/HOME locations, x option sets (--config-path, --search-parent-directories, --no-editorconfig, a command-line override) x target sets including several targets in one run (memo interaction), a directory, stdin with/without "
+         "--stdin-filepath. Every file carries a distinct indent width, so the applied configuration is read off the output and judged by ConfigSearch!Resolve; the memoised search is transcribed (ImplHistory) and TLC checks it refines Resolve for every history.",
+         "TLC model ConfigSearch (ImplRefines invariant) + G->R->V", "5 C15"),
+ "C16": ("A fixed tree (nested directories, hidden entries, .luau and non-Lua files) with .styluaignore files at two levels over a pattern language (name, dir/, *.ext, /anchored, negations; <= 2 patterns), x argument lists (files, directories, overlapping, "
+         "repeated, two spellings) x --respect-ignores / --allow-hidden; processed set (bytes changed) and dispatch events judged against Selection!Selected (gitignore semantics in TLA+), with a stated tolerance for an explicitly named ignored directory.",
+         "TLC model Selection + G->R->V (processed set and dispatch counts)", "5 C16"),
+ "C17": ("Input classes (valid, invalid, empty, CRLF, no final newline, large) x write/check in 4 formats x --stdin-filepath situations (none, not ignored, ignored directory 1-3 levels up, ignored file, ignored without --respect-ignores, directory with its own "
+         "stylua.toml) x extras; stdout compared with the library's output / the input / empty, exit status, no fs_write event, tree snapshot unchanged.",
+         "G(MC_Stdin)->R->V(Trace_Cli!StdinFails)", "5 C17"),
+ "C18": ("(original, formatted) pairs from real formatting: every sequence of <= 4 edit-shape segments (unchanged, changed, expanding, collapsing, blank-run, moved by require sorting) x {LF, CRLF, no final newline}, and the repository's test inputs at several widths, "
+         "through --check in all four formats; TLC applies the parsed unified hunks / JSON mismatches to the original (Diff!ApplyUnified / ApplyJson over line identifiers) and compares with the library's output; the JSON construction is transcribed (ImplJson) and checked at design level.",
+         "TLC model Diff (ApplyJson/ApplyUnified, ImplJson refinement) + G->R->V", "5 C18"),
+ "C20": ("Every documented option value (34 entries) x every carrier that can express it (stylua.toml, .stylua.toml, flag in three case variants, .editorconfig key in two case variants) x 1-2 files in the directory: output must equal the library's for the Config the "
+         "Carriers table assigns; malformed files (misspelt key, wrong type, unknown table, invalid enum value, unknown key in a table, not TOML) at cwd / sub-directory / --config-path must give exit 2 and modify nothing.",
+         "TLC table Carriers + G->R->V (CarrierFails)", "5 C20"),
 }
 checks = []
 for pid, (text, tech, ref) in sorted(CLI_CLAIMED.items()):
